@@ -706,9 +706,18 @@ class C08(Prop):
             if t[0] == "RESET":
                 returned = []
                 prev_live = set()
+                declared, known = set(), set()
+            if t[0] == "DATA":
+                declared.add(t[1])
+            if t[0] == "CREATE":
+                known = set(declared)
             if t[0] == "SINGLE" and out == "ok":
                 prev_live = {"0"}
+                known = {t[1]}
             if t[0] in ("INIT", "NEWBT"):
+                if t[1] not in known and s.get("R", [""])[0] != "none" and "R" in s:
+                    yield (n, "unknown-dataset-rejected", f"{op}: the server holds the datasets {sorted(known)} but answered {s['R']}")
+                    return
                 if s.get("R", [""])[0] == "ok":
                     i = int(s["R"][1])
                     if i in returned or (returned and i <= max(returned)) or str(i) in prev_live:
@@ -1784,7 +1793,9 @@ class C20(Prop):
     determined_why = ("the property fixes every HTTP response: status 400 exactly where the in-process call reports an unknown backtest or "
                       "dataset, otherwise the JSON encoding of the in-process result")
     rule = ("random request sequences over all routes of both services (init, fetch_quotes, insert_order, delete_order, tick, info, "
-            "now) through an in-memory actix test service, next to a twin AppState driven in-process with the same calls; known and "
+            "now) through an in-memory actix test service, next to a twin AppState driven in-process with the same calls, and next to "
+            "a third AppState behind a real HttpServer on 127.0.0.1 called through the repository's own reqwest clients "
+            "(uistv1_client::Client, jurav1_client::Client; skipped and recorded as tcp_unavailable if no loopback socket can be bound); known and "
             "unknown backtests and datasets, all order variants of both exchanges (Jura: constructors and deserialised orders, "
             "decimal strings in three spellings), prices off the dyadic grid too; non-trivial = the case has a 200 tick with a fill "
             "or an admitted order, a 400 answer, and a fetch_quotes answered 200")
@@ -1793,7 +1804,8 @@ class C20(Prop):
                   "status 400 iff the in-process call reports unknown backtest/dataset; every 200 body is the serde-layout encoding of "
                   "exactly the in-process result; decode(encode x) = x for orders, trades, fills and quotes of both exchanges. Tied to "
                   "the real services by comparing status and canonical JSON of every response with the model's, and by an "
-                  "implementation-only comparison of the decoded HTTP result with a twin AppState driven in-process.")
+                  "implementation-only comparison of the decoded HTTP result with a twin AppState driven in-process, and of the typed "
+                  "result the repository's HTTP clients return over a real socket with that same in-process result.")
     level_note = "Partial: JSON text (ryu, serde_json number parsing) and actix extraction are exercised, not modelled; numbers compared at 1e-12 relative as the property states"
     technique = "Lean 4 per-handler refinement lemmas lifted to request sequences by induction + codec round-trip theorems over a JSON AST + response-level correspondence + twin-server comparison"
     design_ref = "DESIGN.md section 8, C20"
@@ -1819,6 +1831,9 @@ class C20(Prop):
                 return
             if s.get("SEQ") == ["false"]:
                 yield (k, "round-trip-keeps-meaning", f"{op}: after the request the server state differs from the in-process twin's")
+                return
+            if s.get("CL") == ["false"]:
+                yield (k, "repository-client-over-tcp-equals-in-process", f"{op.split(' A ')[0]}: the same call through the repository's reqwest client against a real HttpServer on 127.0.0.1 returned a different result, or left that server in a different state, than the in-process call")
                 return
 
     def __init__(self):
